@@ -1,7 +1,8 @@
 import Holpy.C10.Model
 /-
-C10 — order facts about the model's `fast_compare` on monomial bodies: comparing the other way
-round gives the swapped answer (all terms), and `eq` only on identical product trees.
+C10 — the model's `fast_compare` on monomial bodies is a strict total order on product trees:
+comparing the other way round gives the swapped answer (all terms), `eq` only on identical product
+trees, and `lt` is transitive on product trees.
 -/
 namespace Holpy.C10
 open NExp
@@ -18,21 +19,13 @@ theorem natCompare_swap (a b : Nat) : (compare a b).swap = compare b a := by
 theorem ordThen_eq_eq {a b : Ordering} : ordThen a b = .eq ↔ a = .eq ∧ b = .eq := by
   cases a <;> cases b <;> simp [ordThen]
 
-theorem leafCmp_swap (one : Nat) (a b : NExp) : (leafCmp one a b).swap = leafCmp one b a := by
-  cases a <;> cases b <;> simp only [leafCmp, ordThen_swap, natCompare_swap]
+theorem ordThen_eq_lt {a b : Ordering} : ordThen a b = .lt ↔ a = .lt ∨ (a = .eq ∧ b = .lt) := by
+  cases a <;> cases b <;> simp [ordThen]
+
+theorem leafTie_swap (one : Nat) (a b : NExp) : (leafTie one a b).swap = leafTie one b a := by
+  cases a <;> cases b <;> simp only [leafTie, natCompare_swap]
   all_goals (try rfl)
   all_goals (split <;> rfl)
-
-theorem generic_swap (one : Nat) (a b : NExp)
-    (h : fastCmp one a b = if a.size ≠ b.size then compare a.size b.size else leafCmp one a b)
-    (h' : fastCmp one b a = if b.size ≠ a.size then compare b.size a.size else leafCmp one b a) :
-    (fastCmp one a b).swap = fastCmp one b a := by
-  rw [h, h']
-  by_cases hs : a.size = b.size
-  · have hs' : b.size = a.size := hs.symm
-    rw [if_neg (by simpa using hs), if_neg (by simpa using hs'), leafCmp_swap]
-  · have hs' : ¬ b.size = a.size := fun e => hs e.symm
-    rw [if_pos hs, if_pos hs', natCompare_swap]
 
 theorem fastCmp_swap (one : Nat) : ∀ a b : NExp, (fastCmp one a b).swap = fastCmp one b a := by
   intro a
@@ -40,45 +33,9 @@ theorem fastCmp_swap (one : Nat) : ∀ a b : NExp, (fastCmp one a b).swap = fast
   | mul x y ihx ihy =>
     intro b
     cases b with
-    | mul x' y' =>
-      simp only [fastCmp]
-      by_cases hs : (NExp.mul x y).size = (NExp.mul x' y').size
-      · simp only [hs, ne_eq, not_true_eq_false, if_false, ordThen_swap, natCompare_swap, ihx, ihy]
-      · have hs' : ¬ (NExp.mul x' y').size = (NExp.mul x y).size := fun h => hs h.symm
-        simp only [hs, hs', ne_eq, not_false_eq_true, if_true, natCompare_swap]
-    | atom i s =>
-      simp only [fastCmp]
-      by_cases hs : (NExp.mul x y).size = s.size
-      · simp only [hs, ne_eq, not_true_eq_false, if_false, ordThen_swap, natCompare_swap]
-        cases s.hgt <;> rfl
-      · have hs' : ¬ s.size = (NExp.mul x y).size := fun h => hs h.symm
-        simp only [hs, hs', ne_eq, not_false_eq_true, if_true, natCompare_swap]
-    | num n => exact generic_swap one _ _ (by simp only [fastCmp]) (by simp only [fastCmp])
-    | add u v => exact generic_swap one _ _ (by simp only [fastCmp]) (by simp only [fastCmp])
-    | suc u => exact generic_swap one _ _ (by simp only [fastCmp]) (by simp only [fastCmp])
-  | atom i s =>
-    intro b
-    cases b with
-    | mul x y =>
-      simp only [fastCmp]
-      by_cases hs : s.size = (NExp.mul x y).size
-      · simp only [hs, ne_eq, not_true_eq_false, if_false, ordThen_swap, natCompare_swap]
-        cases s.hgt <;> rfl
-      · have hs' : ¬ (NExp.mul x y).size = s.size := fun h => hs h.symm
-        simp only [hs, hs', ne_eq, not_false_eq_true, if_true, natCompare_swap]
-    | atom j s' => exact generic_swap one _ _ (by simp only [fastCmp]) (by simp only [fastCmp])
-    | num n => exact generic_swap one _ _ (by simp only [fastCmp]) (by simp only [fastCmp])
-    | add u v => exact generic_swap one _ _ (by simp only [fastCmp]) (by simp only [fastCmp])
-    | suc u => exact generic_swap one _ _ (by simp only [fastCmp]) (by simp only [fastCmp])
-  | num n =>
-    intro b
-    cases b <;> exact generic_swap one _ _ (by simp only [fastCmp]) (by simp only [fastCmp])
-  | add u v _ _ =>
-    intro b
-    cases b <;> exact generic_swap one _ _ (by simp only [fastCmp]) (by simp only [fastCmp])
-  | suc u _ =>
-    intro b
-    cases b <;> exact generic_swap one _ _ (by simp only [fastCmp]) (by simp only [fastCmp])
+    | mul x' y' => simp only [fastCmp, ordThen_swap, natCompare_swap, ihx, ihy]
+    | _ => simp only [fastCmp, ordThen_swap, natCompare_swap, leafTie_swap]
+  | _ => intro b; cases b <;> simp only [fastCmp, ordThen_swap, natCompare_swap, leafTie_swap]
 
 theorem fastCmp_gt_iff (one : Nat) (a b : NExp) : fastCmp one a b = .gt ↔ fastCmp one b a = .lt := by
   rw [← fastCmp_swap one a b]; cases fastCmp one a b <;> simp [Ordering.swap]
@@ -99,6 +56,34 @@ def isTree : NExp → Bool
 theorem shape_ext {s s' : Shape} (h1 : s.size = s'.size) (h2 : s.fsz = s'.fsz) (h3 : s.hgt = s'.hgt) : s = s' := by
   cases s; cases s'; simp_all
 
+/-- what is compared after the three numeric keys -/
+def inner (one : Nat) : NExp → NExp → Ordering
+  | .mul x y, .mul x' y' => ordThen (fastCmp one x x') (fastCmp one y y')
+  | a, b => leafTie one a b
+
+/-- `fastCmp` is the lexicographic comparison of (size, function-part size, class, inner). -/
+theorem fastCmp_lex (one : Nat) (a b : NExp) :
+    fastCmp one a b = ordThen (compare a.size b.size)
+      (ordThen (compare (fsize a) (fsize b)) (ordThen (compare (cls a) (cls b)) (inner one a b))) := by
+  cases a <;> cases b <;> simp only [fastCmp, inner, fsize, cls]
+  -- the product / product case
+  rename_i x y x' y'
+  rcases Nat.lt_trichotomy x.size x'.size with h | h | h
+  · simp [Nat.compare_eq_lt.2 h, Nat.compare_eq_lt.2 (show x.size + 2 < x'.size + 2 by omega), ordThen]
+  · simp [h, ordThen]
+  · simp [Nat.compare_eq_gt.2 h, Nat.compare_eq_gt.2 (show x'.size + 2 < x.size + 2 by omega), ordThen]
+
+theorem fastCmp_lt_char (one : Nat) (a b : NExp) : fastCmp one a b = .lt ↔
+    (a.size < b.size ∨ (a.size = b.size ∧ (fsize a < fsize b ∨ (fsize a = fsize b ∧
+      (cls a < cls b ∨ (cls a = cls b ∧ inner one a b = .lt)))))) := by
+  rw [fastCmp_lex]
+  simp only [ordThen_eq_lt, Nat.compare_eq_lt, Nat.compare_eq_eq]
+
+theorem fastCmp_eq_char (one : Nat) (a b : NExp) : fastCmp one a b = .eq ↔
+    (a.size = b.size ∧ fsize a = fsize b ∧ cls a = cls b ∧ inner one a b = .eq) := by
+  rw [fastCmp_lex]
+  simp only [ordThen_eq_eq, Nat.compare_eq_eq]
+
 /-- `fast_compare` answers `eq` only on identical product trees. -/
 theorem fastCmp_eq (one : Nat) : ∀ a b : NExp, isTree a = true → isTree b = true →
     fastCmp one a b = .eq → a = b := by
@@ -107,74 +92,163 @@ theorem fastCmp_eq (one : Nat) : ∀ a b : NExp, isTree a = true → isTree b = 
   | mul x y ihx ihy =>
     intro b ha hb h
     simp only [isTree, Bool.and_eq_true] at ha
+    obtain ⟨_, _, hc, hi⟩ := (fastCmp_eq_char one _ _).1 h
     cases b with
     | mul x' y' =>
       simp only [isTree, Bool.and_eq_true] at hb
-      simp only [fastCmp] at h
-      split at h
-      · simp at h; omega
-      · simp only [ordThen_eq_eq] at h
-        rw [ihx x' ha.1 hb.1 h.2.1, ihy y' ha.2 hb.2 h.2.2]
-    | atom i s =>
-      simp only [fastCmp] at h
-      split at h
-      · simp at h; omega
-      · simp only [ordThen_eq_eq] at h
-        cases hh : s.hgt <;> simp [hh] at h
-    | num n =>
-      simp only [fastCmp] at h
-      split at h
-      · simp at h; omega
-      · next hs => simp [NExp.size] at hs
+      simp only [inner, ordThen_eq_eq] at hi
+      rw [ihx x' ha.1 hb.1 hi.1, ihy y' ha.2 hb.2 hi.2]
+    | atom i s => simp only [cls] at hc; split at hc <;> omega
+    | num n => simp [cls] at hc
     | add u v => simp [isTree] at hb
     | suc u => simp [isTree] at hb
   | atom i s =>
     intro b _ hb h
+    obtain ⟨hs, hf, hc, hi⟩ := (fastCmp_eq_char one _ _).1 h
     cases b with
-    | mul x y =>
-      simp only [fastCmp] at h
-      split at h
-      · simp at h; omega
-      · simp only [ordThen_eq_eq] at h
-        cases hh : s.hgt <;> simp [hh] at h
+    | mul x y => simp only [cls] at hc; split at hc <;> omega
     | atom j s' =>
-      simp only [fastCmp] at h
-      split at h
-      · simp at h; omega
-      · next hs =>
-        simp only [leafCmp, ordThen_eq_eq, Nat.compare_eq_eq] at h
-        simp only [NExp.size, ne_eq, Decidable.not_not] at hs
-        obtain ⟨h1, h2, h3⟩ := h
-        have : s.hgt = s'.hgt := by cases hx : s.hgt <;> cases hy : s'.hgt <;> simp_all [Bool.toNat]
-        rw [h1, shape_ext hs h2 this]
-    | num n =>
-      simp only [fastCmp] at h
-      split at h
-      · simp at h; omega
-      · simp only [leafCmp] at h; split at h <;> cases h
+      simp only [inner, leafTie, Nat.compare_eq_eq] at hi
+      simp only [NExp.size] at hs
+      simp only [fsize] at hf
+      have : s.hgt = s'.hgt := by
+        simp only [cls] at hc
+        cases hx : s.hgt <;> cases hy : s'.hgt <;> simp_all
+      rw [hi, shape_ext hs hf this]
+    | num n => simp only [inner, leafTie] at hi; split at hi <;> cases hi
     | add u v => simp [isTree] at hb
     | suc u => simp [isTree] at hb
   | num n =>
     intro b _ hb h
+    obtain ⟨_, _, hc, hi⟩ := (fastCmp_eq_char one _ _).1 h
     cases b with
-    | mul x y =>
-      simp only [fastCmp] at h
-      split at h
-      · simp at h; omega
-      · next hs => simp [NExp.size] at hs
-    | atom j s' =>
-      simp only [fastCmp] at h
-      split at h
-      · simp at h; omega
-      · simp only [leafCmp] at h; split at h <;> cases h
-    | num m =>
-      simp only [fastCmp] at h
-      split at h
-      · simp [NExp.size] at *
-      · simp only [leafCmp, Nat.compare_eq_eq] at h; rw [h]
+    | mul x y => simp [cls] at hc
+    | atom j s' => simp only [inner, leafTie] at hi; split at hi <;> cases hi
+    | num m => simp only [inner, leafTie, Nat.compare_eq_eq] at hi; rw [hi]
     | add u v => simp [isTree] at hb
     | suc u => simp [isTree] at hb
   | add u v _ _ => intro b ha; simp [isTree] at ha
   | suc u _ => intro b ha; simp [isTree] at ha
+
+/-- numeric keys of a leaf: `leafTie` is their lexicographic comparison -/
+def lk1 (one : Nat) : NExp → Nat
+  | .atom i _ => 2 * i + 1
+  | _ => 2 * one
+def lk2 : NExp → Nat
+  | .num n => n
+  | _ => 0
+
+def isLeaf : NExp → Bool
+  | .atom _ _ => true
+  | .num _ => true
+  | _ => false
+
+theorem leafTie_lt_char (one : Nat) (a b : NExp) (ha : isLeaf a = true) (hb : isLeaf b = true) :
+    leafTie one a b = .lt ↔ (lk1 one a < lk1 one b ∨ (lk1 one a = lk1 one b ∧ lk2 a < lk2 b)) := by
+  cases a <;> cases b <;> simp only [isLeaf] at ha hb <;> try (cases ha) <;> try (cases hb)
+  · simp only [leafTie, lk1, lk2, Nat.compare_eq_lt]; omega
+  · simp only [leafTie, lk1, lk2]; split <;> simp <;> omega
+  · simp only [leafTie, lk1, lk2]; split <;> simp <;> omega
+  · simp only [leafTie, lk1, lk2, Nat.compare_eq_lt]
+    constructor
+    · intro h; exact Or.inr ⟨by simp, h⟩
+    · rintro (h | ⟨_, h⟩)
+      · omega
+      · exact h
+
+theorem leafTie_trans (one : Nat) (a b c : NExp) (ha : isLeaf a = true) (hb : isLeaf b = true)
+    (hc : isLeaf c = true)
+    (h1 : leafTie one a b = .lt) (h2 : leafTie one b c = .lt) : leafTie one a c = .lt := by
+  rw [leafTie_lt_char one _ _ ha hb] at h1
+  rw [leafTie_lt_char one _ _ hb hc] at h2
+  rw [leafTie_lt_char one _ _ ha hc]
+  omega
+
+/-- lexicographic transitivity for three numeric keys followed by a relation that is transitive
+when the keys agree -/
+theorem lex_trans (s1 s2 s3 f1 f2 f3 c1 c2 c3 : Nat) (P12 P23 P13 : Prop)
+    (hP : s1 = s2 → s2 = s3 → f1 = f2 → f2 = f3 → c1 = c2 → c2 = c3 → P12 → P23 → P13)
+    (h1 : s1 < s2 ∨ (s1 = s2 ∧ (f1 < f2 ∨ (f1 = f2 ∧ (c1 < c2 ∨ (c1 = c2 ∧ P12))))))
+    (h2 : s2 < s3 ∨ (s2 = s3 ∧ (f2 < f3 ∨ (f2 = f3 ∧ (c2 < c3 ∨ (c2 = c3 ∧ P23)))))) :
+    s1 < s3 ∨ (s1 = s3 ∧ (f1 < f3 ∨ (f1 = f3 ∧ (c1 < c3 ∨ (c1 = c3 ∧ P13))))) := by
+  rcases h1 with a | ⟨a1, a | ⟨a2, a | ⟨a3, a⟩⟩⟩ <;> rcases h2 with b | ⟨b1, b | ⟨b2, b | ⟨b3, b⟩⟩⟩
+  all_goals first
+    | exact Or.inl (by omega)
+    | exact Or.inr ⟨by omega, Or.inl (by omega)⟩
+    | exact Or.inr ⟨by omega, Or.inr ⟨by omega, Or.inl (by omega)⟩⟩
+    | exact Or.inr ⟨by omega, Or.inr ⟨by omega, Or.inr ⟨by omega, hP a1 b1 a2 b2 a3 b3 a b⟩⟩⟩
+
+theorem isLeaf_of_tree_nonmul {a : NExp} (ha : isTree a = true) (hna : ∀ x y, a ≠ .mul x y) :
+    isLeaf a = true := by
+  cases a with
+  | mul x y => exact absurd rfl (hna x y)
+  | atom i s => rfl
+  | num n => rfl
+  | add u v => simp [isTree] at ha
+  | suc u => simp [isTree] at ha
+
+theorem cls_mul_of_eq {a : NExp} (x y : NExp) (h : cls a = cls (.mul x y)) : ∃ x' y', a = .mul x' y' := by
+  cases a with
+  | mul x' y' => exact ⟨x', y', rfl⟩
+  | atom i s => simp only [cls] at h; split at h <;> omega
+  | num n => simp [cls] at h
+  | add u v => simp [cls] at h
+  | suc u => simp [cls] at h
+
+theorem inner_leaf (one : Nat) {a b : NExp} (hna : ∀ x y, a ≠ .mul x y) : inner one a b = leafTie one a b := by
+  cases a with
+  | mul x y => exact absurd rfl (hna x y)
+  | _ => cases b <;> rfl
+
+/-- transitivity when the first term is a leaf -/
+theorem leaf_case (one : Nat) (a b c : NExp) (ha : isTree a = true) (hb : isTree b = true)
+    (hc : isTree c = true) (hna : ∀ x y, a ≠ .mul x y)
+    (h1 : fastCmp one a b = .lt) (h2 : fastCmp one b c = .lt) : fastCmp one a c = .lt := by
+  rw [fastCmp_lt_char] at h1 h2 ⊢
+  refine lex_trans _ _ _ _ _ _ _ _ _ _ _ _ ?_ h1 h2
+  intro _ _ _ _ k5 k6 i1 i2
+  have hnb : ∀ x y, b ≠ .mul x y := by
+    intro x y e; subst e
+    obtain ⟨x', y', e⟩ := cls_mul_of_eq x y k5
+    exact hna x' y' e
+  have hnc : ∀ x y, c ≠ .mul x y := by
+    intro x y e; subst e
+    obtain ⟨x', y', e⟩ := cls_mul_of_eq x y k6
+    exact hnb x' y' e
+  rw [inner_leaf one hna] at i1 ⊢
+  rw [inner_leaf one hnb] at i2
+  exact leafTie_trans one a b c (isLeaf_of_tree_nonmul ha hna) (isLeaf_of_tree_nonmul hb hnb)
+    (isLeaf_of_tree_nonmul hc hnc) i1 i2
+
+/-- `lt` is transitive on product trees. -/
+theorem fastCmp_trans (one : Nat) : ∀ a b c : NExp, isTree a = true → isTree b = true → isTree c = true →
+    fastCmp one a b = .lt → fastCmp one b c = .lt → fastCmp one a c = .lt := by
+  intro a
+  induction a with
+  | mul x y ihx ihy =>
+    intro b c ha hb hc h1 h2
+    rw [fastCmp_lt_char] at h1 h2 ⊢
+    refine lex_trans _ _ _ _ _ _ _ _ _ _ _ _ ?_ h1 h2
+    intro _ _ _ _ k5 k6 i1 i2
+    obtain ⟨x', y', rfl⟩ := cls_mul_of_eq x y k5.symm
+    obtain ⟨x'', y'', rfl⟩ := cls_mul_of_eq x' y' k6.symm
+    simp only [isTree, Bool.and_eq_true] at ha hb hc
+    simp only [inner, ordThen_eq_lt] at i1 i2 ⊢
+    rcases i1 with l1 | ⟨e1, l1⟩ <;> rcases i2 with l2 | ⟨e2, l2⟩
+    · exact Or.inl (ihx x' x'' ha.1 hb.1 hc.1 l1 l2)
+    · have := fastCmp_eq one x' x'' hb.1 hc.1 e2; subst this; exact Or.inl l1
+    · have := fastCmp_eq one x x' ha.1 hb.1 e1; subst this; exact Or.inl l2
+    · have e := fastCmp_eq one x x' ha.1 hb.1 e1
+      have e' := fastCmp_eq one x' x'' hb.1 hc.1 e2
+      subst e; subst e'
+      exact Or.inr ⟨e1, ihy y' y'' ha.2 hb.2 hc.2 l1 l2⟩
+  | atom i s =>
+    intro b c ha hb hc h1 h2
+    exact leaf_case one _ b c ha hb hc (by intro x y h; cases h) h1 h2
+  | num n =>
+    intro b c ha hb hc h1 h2
+    exact leaf_case one _ b c ha hb hc (by intro x y h; cases h) h1 h2
+  | add u v _ _ => intro b c ha; simp [isTree] at ha
+  | suc u _ => intro b c ha; simp [isTree] at ha
 
 end Holpy.C10
